@@ -9,5 +9,8 @@ CONSTANTS
   Modes = {"never", "whole", "prefix"}
   Pieces = {0, 1, 2}
   GivenFile = ""
-INVARIANTS TypeOK CountExact NoWriteAfterFailure PrefixDelivered FirstError NoFailEqualsString FailsAtCapacity StringNeverPanics
+  MaxCalls = 2
+  LaterModes = {"never", "whole", "prefix"}
+  FreshPerCall = TRUE
+INVARIANTS TypeOK CountExact NoWriteAfterFailure PrefixDelivered FirstError NoFailEqualsString FailsAtCapacity StringNeverPanics CallStartsFresh HealthyAfterFailure
 CHECK_DEADLOCK FALSE
